@@ -412,9 +412,39 @@ func Generate(rng *rand.Rand, maxDepth int) *Registry {
 					}
 				}
 			}
+			if rng.Intn(12) == 0 {
+				g.tiedNames(v, p.Name)
+			}
 		}
 	}
 	return g.reg
+}
+
+// tiedNames gives a version two requirements that go by the same name — an
+// aliased dependency whose alias is also listed in bundleDependencies, or an
+// alias in dependencies with a plain namesake in optionalDependencies — and
+// pads its dependencies so that, with the bundled ones, more than a dozen
+// requirements are ordered together: whichever client orders them, the tied
+// ones must come out in the same relative order.
+func (g *genr) tiedNames(v *Ver, self string) {
+	t := g.somePkg()
+	if t.Name == self {
+		return
+	}
+	keys := v.Deps.keys()
+	alias := g.aliasKey(t.Name)
+	if keys[alias] {
+		return
+	}
+	v.Deps.Reg = append(v.Deps.Reg, Dep{Name: alias, Req: "*", Real: t.Name})
+	if g.rng.Intn(2) == 0 {
+		v.Deps.Bundle = append(v.Deps.Bundle, alias)
+	} else {
+		v.Deps.Opt = append(v.Deps.Opt, Dep{Name: alias, Req: "*"})
+	}
+	for tries := 0; tries < 60 && len(v.Deps.Reg)+len(v.Deps.Dev)+len(v.Deps.Opt)+len(v.Deps.Peer)+len(v.Deps.Bundle) < 10+g.rng.Intn(6); tries++ {
+		g.addDeps(&v.Deps, self, 1, 4)
+	}
 }
 
 func (r *Registry) describe() string {
